@@ -105,7 +105,9 @@ func TestVerifC18Wiring(t *testing.T) {
 		// accept), so with as many listeners as slots nothing could ever be served: more slots than listeners.
 		nsrv := 2 + rng.Intn(3)
 		stop := nsrv + 1 + rng.Intn(3)
-		resume := 1 + rng.Intn(stop)
+		// (for the same reason accepting can only resume if the resume threshold is not below the number of
+		// listeners: the slots of the pending accepts never go away)
+		resume := nsrv + rng.Intn(stop-nsrv+1)
 		lim, err := connlimiter.New(&connlimiter.Config{Logger: slogutil.NewDiscardLogger(), Stop: uint64(stop), Resume: uint64(resume)})
 		if err != nil {
 			t.Fatal(err)
